@@ -38,7 +38,7 @@ try:
                            capture_output=True, text=True)
         print("[%s] tests: %s" % (name, (t.stdout.strip().splitlines() or ["?"])[-1]))
     for pr in props:
-        r = subprocess.run(["/verif/check", pr, "--tier", tier], env=dict(os.environ, VERIF_REPO=root), capture_output=True, text=True)
+        r = subprocess.run(["/verif/check", pr, "--tier", tier], env=dict(os.environ, VERIF_REPO=root, VERIF_OUT_DIR=root + "/_out"), capture_output=True, text=True)
         lines = [l for l in r.stdout.splitlines() if l.startswith(("VIOLATION", "HARNESS", pr + " tier"))]
         print("[%s] %s rc=%d %s" % (name, pr, r.returncode, " | ".join(l[:230] for l in lines)))
         if os.environ.get("SHOW"):
